@@ -32,10 +32,17 @@ GetToken(s, p) == LET t == TokP(s, p, St) IN
                   ELSE IF t.t = "ERR" THEN [r |-> "raise", what |-> t.what, at |-> t.pos]
                   ELSE [r |-> "token", v |-> t]
 
+(* the first token that is not a comment, from p *)
+RECURSIVE FirstReal(_, _, _)
+FirstReal(s, p, fuel) == LET t == TokP(s, p, St) IN
+                         IF fuel > 0 /\ t.t = "comment" THEN FirstReal(s, t.pos_end, fuel - 1) ELSE t
 GetExpression(s, p, strictbraces) ==
     LET e == ParseExpr(s, p, St, TRUE, NoneV, Fuel(s))
         dummy == NodeV(Node("chars", p, p, St))
-    IN IF ~Tol /\ ~e.ok /\ e.what = "expr_closing_group" /\ ~strictbraces THEN NodeRes(dummy, p, 0)
+        \* only a closing brace met by THIS expression parser is forgiven (the marker set by the expression parser does not
+        \* survive the error handling of nested constructs: '{\\m}' raises, as the new expression parser does)
+        own == FirstReal(s, p, Fuel(s)).t = "brace_close"
+    IN IF ~Tol /\ ~e.ok /\ e.what = "expr_closing_group" /\ ~strictbraces /\ own THEN NodeRes(dummy, p, 0)
        ELSE LET r == PC(e, St) IN       \* (in tolerant mode parse_content has already recovered the error)
             IF ~r.ok THEN Raise(r)
             ELSE IF r.v.vk = "none" THEN (IF Tol \/ ~strictbraces THEN NodeRes(dummy, p, 0) ELSE [r |-> "none"])
